@@ -54,7 +54,9 @@ class CD(CA):          # subclass of CA: pools are keyed by exact type
     pass
 
 
-class CE(Component):
+class CE(__import__("props.common", fromlist=["x"]).ChaosMixin, Component):
+    """A component class with a whole set of special methods of its own (callable, iterable, ordered, falsy, odd repr ...)."""
+
     def __init__(self, agent, model, payload=None):
         super().__init__(agent, model)
         self.payload = payload
